@@ -149,7 +149,10 @@ Record freeS (n : Z) (F T FM TM : Z -> Z) (nodes : list Z) (ER : list aedge) (fl
   f_nodup : NoDup fl;
   f_fl : forall s, In s fl -> 0 < s < n /\ - s <> i64_min /\ ~ In s nodes /\ ~ In s (map eslot ER);
   f_unused : forall s, 0 < s < n -> ~ In s nodes -> ~ In s (map eslot ER) ->
-               FM s < 0 /\ F s = 0 /\ T s = 0 /\ TM s = 0
+               FM s < 0 /\ F s = 0 /\ T s = 0 /\ TM s = 0;
+  (* no slot is leaked as long as the slot 2^63 (whose negation is i64::MIN = "no free slot") is not in play *)
+  f_cover : n <= 9223372036854775808 ->
+            forall s, 0 < s < n -> ~ In s nodes -> ~ In s (map eslot ER) -> In s fl
 }.
 
 Record rsimF (n : Z) (F T FM TM : Z -> Z) (nodes : list Z) (PO PI : Z -> Prop)
